@@ -416,8 +416,9 @@ Proof.
   repeat (constructor; [intros H; cbn [In] in H; intuition discriminate|]). constructor.
 Qed.
 
-(** What is provable from the optimality of ckk (Proofs/CKKOptimal.v): both runs reach the optimal
-    difference, so they agree on the objective value; for two bins this determines the sums. *)
+(** What is provable from the optimality of ckk (Proofs/CKKOptimal.v) alone: both runs reach the optimal
+    difference, so they agree on the objective value; for two bins this determines the sums.
+    (Equal sums for every k: Proofs/CKKManagersProofs.v, [ckk_names_sums].) *)
 Lemma Opt_unique (o : objective) (k : nat) (vs : list Z) (v1 v2 : Z) :
   Opt o k vs v1 -> Opt o k vs v2 -> v1 = v2.
 Proof.
@@ -476,20 +477,17 @@ Proof.
   assert (s1 = t1) by lia. assert (s2 = t2) by lia. subst. reflexivity.
 Qed.
 
-(* OPEN (stretch goals, not proved):
-     ckk_names_sums : forall A valueof nameof k items b b', (1 <= k)%nat -> items <> [] ->
-       Forall (fun x => 0 <= valueof x) items -> NoDup (map nameof items) ->
-       ckk valueof nameof true k items = Ok b -> ckk idv idv true k (map valueof items) = Ok b' ->
-       sums b = sums b'.
-     and the same statement for [snp] and [rnp] (Model/SNP.v).
-   Evidence: no counterexample among 1500 random instances (5-9 items, values 1..7 with many
-   repeats, shuffled names; k = 3, 4 for ckk, snp, rnp; also k = 5 and keep = false on 200
-   instances) evaluated with vm_compute.  For k = 2 it is [ckk_names_sums_2] above; for k >= 3 the
-   optimal difference does not determine the sums, and the two runs visit different search trees
-   (the named one re-explores value-duplicates), so a proof needs an "exploring a value-duplicate
-   subtree again never changes the incumbent" lemma for [ckk_explore] under a moving incumbent and
-   the fact that first/last occurrences of the duplicate classes come in the same order in
-   [perms]; not attempted. *)
+(* The general statement
+     ckk_names_sums : forall A valueof nameof k items, names_ok valueof nameof items ->
+       rmap sums (ckk valueof nameof true k items) = rmap sums (ckk idv idv true k (map valueof items))
+   (every k, no hypothesis on the values, also for ckk_generator and for any two presentations of the
+   same values) is proved in Proofs/CKKManagersProofs.v ([ckk_names_sums], [ckk_names_sums_gen],
+   [ckk_generator_names_sums]); it became true when the children of a CKK search node were de-duplicated
+   by their sums (Model/KK.v [ckk_children]): both managers and all presentations then explore the same
+   tree.  It subsumes [ckk_names_value] and [ckk_names_sums_2] above, which are kept because they do not
+   depend on that repair (they follow from optimality alone).
+   OPEN: the same statement for [snp] and [rnp] (Model/SNP.v); no counterexample among 1500 random
+   instances. *)
 
 (** * Concrete instances (one per family), both sides evaluated *)
 
